@@ -399,7 +399,7 @@ func TestC27_PruningKeepsRetainedState(t *testing.T) {
 			for len(chain)-1-lfbIdx > lag {
 				finalizeNext()
 			}
-			if rapid.IntRange(0, 24).Draw(t, "pruneNow") == 0 || len(chain)-1 == nBlocks {
+			if rapid.IntRange(0, 39).Draw(t, "pruneNow") == 0 || len(chain)-1 == nBlocks {
 				before := len(db.versions)
 				if prunes%4 == 3 {
 					db.interrupt = time.Duration(rapid.IntRange(1, 300).Draw(t, "interruptAfterMicros")) * time.Microsecond
